@@ -49,6 +49,12 @@ pub fn catalogue(tier: Tier) -> Vec<(Spec, u32)> {
                 v.push((p3_events(*t, m.clone(), variant), d));
             }
         }
+        // sibling proxies holding the same subscription on one client
+        for m in [vec![20, 20], vec![20, 17], vec![18, 19]] {
+            for how in 0..3u8 {
+                v.push((p3_siblings(*t, m.clone(), how), d));
+            }
+        }
         // back-pressure: event bursts against a subscriber that lets go of its proxy
         for (n_sub, burst) in [(1u32, 1u32), (3, 3), (3, 12)] {
             for how in 0..3u8 {
